@@ -220,16 +220,17 @@ func (s *seamRPC) blockDead() { sched.ParkForever() }
 
 func (s *seamRPC) SendRequest(ctx context.Context, addr string, req *tikvrpc.Request, timeout time.Duration) (*tikvrpc.Response, error) {
 	label := ReqLabel(req)
+	reqCopy := *req // the codec recycles the Request wrapper through a pool: keep our own copy
 	if s.c.W.Crashed(s.c.ID) {
 		s.blockDead()
 		return nil, errClosed
 	}
-	d := sched.Point(s.c.ID, sched.KRPC, label, req)
+	d := sched.Point(s.c.ID, sched.KRPC, label, &reqCopy)
 	if s.c.W.Crashed(s.c.ID) && d.Kind != sched.Abort {
 		s.blockDead()
 		return nil, errClosed
 	}
-	rec := RPCRecord{Client: s.c.ID, Cmd: req.Type, Req: req, Dev: d.Kind, Label: label}
+	rec := RPCRecord{Client: s.c.ID, Cmd: req.Type, Req: &reqCopy, Dev: d.Kind, Label: label}
 	switch d.Kind {
 	case sched.Abort:
 		return nil, errClosed
